@@ -233,6 +233,46 @@ let ref_step_case (c : case) : string * string =
         (r, dline)
     else ("", dline)
 
+(* kind=port: histories of DDR / DR writes, external input changes and DR reads on the 11 ports, against the
+   abstract ports (latch, ddr, pin).  Emits the expected results, the expected register bytes and, per port,
+   the trajectory of the driven output value (for the announcement rule). *)
+let ref_port (c : case) : string * bool =
+  let ports = Array.make 12 port0 in
+  let traj = Array.make 12 [] in
+  let dom = ref true in
+  let touched = ref [] in
+  let note k = let o = int_of_z (p_out ports.(k)) in traj.(k) <- o :: traj.(k) in
+  for k = 1 to 11 do note k done;
+  let rs = List.map (fun o ->
+      match o with
+      | OW8 (a, v) ->
+        let ai = int_of_z a in
+        if ai >= 0xfee000 && ai <= 0xfee00a then begin
+          let k = ai - 0xfee000 + 1 in ports.(k) <- pstep ports.(k) (PWriteDdr v); note k; touched := k :: !touched; "ok" end
+        else if ai >= 0xffffd0 && ai <= 0xffffda then begin
+          let k = ai - 0xffffd0 + 1 in ports.(k) <- pstep ports.(k) (PWriteDr v); note k; touched := k :: !touched; "ok" end
+        else begin dom := false; "na" end
+      | OPort (p, v) ->
+        let k = int_of_z p in
+        if k >= 1 && k <= 11 then begin ports.(k) <- pstep ports.(k) (PInput v); note k; touched := k :: !touched end;
+        "ok"
+      | OR8 a ->
+        let ai = int_of_z a in
+        if ai >= 0xffffd0 && ai <= 0xffffda then fmt_res (ROkV (p_read ports.(ai - 0xffffd0 + 1)))
+        else if ai >= 0xfee000 && ai <= 0xfee00a then fmt_res (ROkV ports.(ai - 0xfee000 + 1).p_ddr)
+        else begin dom := false; "na" end
+      | _ -> dom := false; "na") c.ops in
+  let md = List.concat_map (fun k ->
+      let d = int_of_z ports.(k).p_ddr and r = int_of_z (p_read ports.(k)) in
+      (if d <> 0 then [ (0xfee000 + k - 1, d) ] else []) @ (if r <> 0 then [ (0xffffd0 + k - 1, r) ] else []))
+      (List.sort_uniq compare !touched) in
+  let md = List.map (fun (a, v) -> Printf.sprintf "%x:%02x" a v) (List.sort compare md) in
+  let outs = List.filter_map (fun k ->
+      if List.mem k !touched then
+        Some (Printf.sprintf "%x:%s" k (String.concat "." (List.map (Printf.sprintf "%x") (List.rev traj.(k)))))
+      else None) (List.init 11 (fun i -> i + 1)) in
+  (Printf.sprintf "res=%s md=%s outs=%s" (String.concat "," rs) (String.concat ";" md) (String.concat ";" outs), !dom)
+
 (* kind=entry: ops = int:<v> [,step]: interrupt entry through vector v, optionally followed by the handler's RTE *)
 let ref_entry_case (c : case) : string * string =
   match c.ops with
@@ -271,6 +311,9 @@ let () =
           | "step" ->
             let (r, d) = ref_step_case c in
             Printf.fprintf oc "R id=%s %s\nD id=%s %s\n" c.id r c.id d
+          | "port" ->
+            let (r, d) = ref_port c in
+            Printf.fprintf oc "R id=%s %s\nD id=%s C16=%d\n" c.id r c.id (if d then 1 else 0)
           | "entry" ->
             let (r, d) = ref_entry_case c in
             Printf.fprintf oc "R id=%s %s\nD id=%s %s\n" c.id r c.id d
